@@ -135,7 +135,10 @@ def _same(a, b, rtol, keys=None):
         x, y = float(a[k]), float(b[k])
         if (math.isnan(x) and math.isnan(y)) or (math.isinf(x) and x == y):
             continue
-        if not abs(x - y) <= rtol * abs(y) + 1e-300:
+        # scatters and knee cycle numbers are exponentials of what the analyzers compute (TS = 10^(2.56 s)): a value of 1e101 (a
+        # degenerate, nearly flat probit fit) carries the rounding of its exponent |ln y| times over
+        cond = max(1.0, abs(math.log(abs(y)))) if (k in ("TN", "TS", "ND") and y not in (0.0,) and math.isfinite(y)) else 1.0
+        if not abs(x - y) <= rtol * cond * abs(y) + 1e-300:
             return False, k
     return True, None
 
